@@ -970,6 +970,77 @@ fn directed_inputs() -> Vec<(Fmt, u8, Vec<u8>)> {
 
 const ALPHABET: &[u8] = b"0123456789 \n\r\t-+*=()[],xXcpaigloOAaBbLjf\x00\x01\x02\x7f\x80\xff";
 
+/// (start, end, value) of every maximal run of ASCII digits (at most 9 digits)
+fn number_tokens(src: &[u8]) -> Vec<(usize, usize, u64)> {
+    let mut out = Vec::new();
+    let mut i = 0;
+    while i < src.len() {
+        if src[i].is_ascii_digit() {
+            let st = i;
+            while i < src.len() && src[i].is_ascii_digit() {
+                i += 1;
+            }
+            if i - st <= 9 {
+                let v: u64 = std::str::from_utf8(&src[st..i]).unwrap().parse().unwrap();
+                out.push((st, i, v));
+            }
+        } else {
+            i += 1;
+        }
+    }
+    out
+}
+
+/// the input with one number replaced by 0, 1, v - 1, v + 1 and h - 1, h, h + 1 for every number h
+/// of the header line (the first line that is not a comment)
+fn number_boundary_mutations(src: &[u8]) -> (Vec<Vec<u8>>, Vec<Vec<u8>>) {
+    let toks = number_tokens(src);
+    // header line: first line not starting with 'c' followed by a space / end
+    let mut pos = 0usize;
+    let mut header: Vec<u64> = Vec::new();
+    for ln in src.split_inclusive(|&c| c == b'\n') {
+        let is_comment = ln.first() == Some(&b'c') && (ln.len() == 1 || ln[1] == b' ' || ln[1] == b'\n');
+        if !is_comment && !ln.iter().all(|c| c.is_ascii_whitespace()) {
+            header = toks.iter().filter(|t| t.0 >= pos && t.1 <= pos + ln.len()).map(|t| t.2).collect();
+            break;
+        }
+        pos += ln.len();
+    }
+    // .0: the header counts themselves and their neighbours (always used), .1: the rest (sampled in the quick tier)
+    let mut out = (Vec::new(), Vec::new());
+    for &(st, en, v) in &toks {
+        let mut first: Vec<u64> = Vec::new();
+        for &h in &header {
+            first.extend([h.saturating_sub(1), h, h + 1]);
+        }
+        first.sort_unstable();
+        first.dedup();
+        let mut rest: Vec<u64> = vec![0, 1, v.saturating_sub(1), v + 1];
+        for &h in &header {
+            rest.extend([2 * h, 2 * h + 1]);
+        }
+        rest.sort_unstable();
+        rest.dedup();
+        rest.retain(|c| !first.contains(c));
+        for (k, cands) in [first, rest].into_iter().enumerate() {
+            for c in cands {
+                if c == v {
+                    continue;
+                }
+                let mut b = src[..st].to_vec();
+                b.extend_from_slice(c.to_string().as_bytes());
+                b.extend_from_slice(&src[en..]);
+                if k == 0 {
+                    out.0.push(b);
+                } else {
+                    out.1.push(b);
+                }
+            }
+        }
+    }
+    out
+}
+
 fn mutate(rng: &mut Rng, src: &[u8]) -> Vec<u8> {
     let mut b = src.to_vec();
     let ops = 1 + rng.below(3);
@@ -1052,6 +1123,15 @@ fn parse_mutate(args: &Args) {
                 counter += 1;
                 let t = if counter % load_every == 0 { Some(tmp.as_str()) } else { None };
                 log_parse(&mut out, &mut st, &mut ps, s.fmt, set, "trunc", &s.name, &s.bytes[..cut], s.hidden_roots, t);
+            }
+            // every decimal number replaced by the boundary values around 0, itself and the numbers of
+            // the header line (node / variable / gate counts): off-by-one bounds checks
+            let (nb_first, nb_rest) = number_boundary_mutations(&s.bytes);
+            let step = if thorough { 1 } else { (nb_rest.len() / 150).max(1) };
+            for m in nb_first.into_iter().chain(nb_rest.into_iter().skip((seed_no as usize) % step).step_by(step)) {
+                counter += 1;
+                let t = if counter % load_every == 0 { Some(tmp.as_str()) } else { None };
+                log_parse(&mut out, &mut st, &mut ps, s.fmt, set, "mut", &s.name, &m, s.hidden_roots, t);
             }
             // seeded byte mutations
             for _ in 0..muts {
